@@ -41,7 +41,7 @@ structure MoveOption where
 def optionProb (nOptions : Nat) (o : MoveOption) : Rat :=
   (if o.R * o.Q < 1 then o.R * o.Q else 1) / (nOptions : Rat)
 
-def setAllele (g : Genotype) (h j a : Nat) : Genotype :=
+def setAlleleAt (g : Genotype) (h j a : Nat) : Genotype :=
   g.set h ((g.getD h []).set j a)
 
 /-- `base_step`: one option per allele different from the current one at `(h, j)` -/
@@ -49,7 +49,7 @@ def baseStepOptions (P : AsmParams) (g : Genotype) (h j nAlleles : Nat) : List M
   let cur := alleleAt g h j
   let w := asmW P g
   ((List.range nAlleles).filter (· ≠ cur)).map (fun a =>
-    let g' := setAllele g h j a
+    let g' := setAlleleAt g h j a
     { target := g', R := asmW P g' / w, Q := (copies g' h : Rat) / (copies g h : Rat) })
 
 /-! ### interval moves -/
